@@ -194,6 +194,9 @@ def name_form(rng, comps, allow_str=True, one_shot=True):
     if k == 2:
         return [bytearray(c) if rng.random() < 0.5 else memoryview(bytes(c)) for c in comps], 'list-mixed-bin'
     if k == 3:
+        if rng.random() < 0.3:
+            from .common import OddStr
+            return OddStr(rc.name_to_uri(comps, canonical=True)), 'canonical-uri-str-subclass'
         return rc.name_to_uri(comps, canonical=True), 'canonical-uri'
     if k == 4:
         return [rc.comp_to_canonical_uri(c) if rng.random() < 0.5 else bytes(c) for c in comps], 'list-mixed-str'
